@@ -170,7 +170,7 @@ theorem bufferedBytes_le_sumRh {ss : List Strm} (h : ∀ s ∈ ss, SR s) : buffe
   induction ss with
   | nil => simp [bufferedBytes]
   | cons x xs ih =>
-    have hx := (h x (by simp)).2.1
+    have hx := (h x (by simp)).2.1.1
     have := ih (fun s hs => h s (by simp [hs]))
     simp [bufferedBytes] at this ⊢
     omega
